@@ -167,7 +167,9 @@ func cmdCheck(args []string) {
 				again = append(again, ob)
 			}
 		}
-		if len(again) > 0 && len(again) <= 40 {
+		// (only a handful: many time-outs at once are not load noise, and re-running them all
+		// would make a failing check take tens of minutes)
+		if len(again) > 0 && len(again) <= 8 {
 			fmt.Printf("retrying %d timed-out queries with timeout %ds\n", len(again), 3*timeout)
 			e.Discharge(again, sym.DischargeOpts{TimeoutS: 3 * timeout, NeedAgree: agree, Jobs: 3, Models: true, NoBatch: true, DumpDir: filepath.Join(replayDir, "smt")})
 		}
